@@ -712,25 +712,66 @@ func IntToFp(a *Term, signed bool, fw int) *Term {
 	return newTerm(op, FP(fw), a)
 }
 
-// FpToInt: Go semantics for in-range values (truncate toward zero).
+// FpToInt: float -> integer conversion with Go's behaviour on amd64, which is
+// what the native replay runs: in-range values truncate toward zero; NaN and
+// out-of-range values give the "integer indefinite" value of the conversion
+// instruction the compiler uses (CVTTSD2SL for int8/16/32 and uint8/16,
+// CVTTSD2SQ for int/int64/uint32, a 2^63 split for uint/uint64), then truncate.
 func FpToInt(a *Term, signed bool, w int) *Term {
+	via := 64
+	if w <= 16 || (signed && w == 32) {
+		via = 32
+	}
 	if a.IsConst() {
 		f := a.FVal()
-		if signed {
-			return BVC(w, uint64(int64(f)))
+		if !signed && w == 64 {
+			if f >= 9223372036854775808.0 {
+				return BVC(64, uint64(int64(f-9223372036854775808.0))^(1<<63))
+			}
 		}
-		if f < 0 {
-			return BVC(w, uint64(int64(f)))
+		var r uint64
+		if via == 32 {
+			if f != f || f >= 2147483648.0 || f <= -2147483649.0 {
+				r = 0x80000000
+			} else {
+				r = uint64(uint32(int32(f)))
+			}
+		} else {
+			if f != f || f >= 9223372036854775808.0 || f < -9223372036854775808.0 {
+				r = 1 << 63
+			} else {
+				r = uint64(int64(f))
+			}
 		}
-		return BVC(w, uint64(f))
+		return BVC(w, r)
 	}
-	op := OFpToU
-	if signed {
-		op = OFpToS
+	fw := a.Sort.W
+	k := func(x float64) *Term { return fpc(fw, x) }
+	var inRange *Term
+	if via == 32 {
+		inRange = And(FpCmp(OFpLt, a, k(2147483648.0)), FpCmp(OFpLt, k(-2147483649.0), a))
+	} else {
+		inRange = And(FpCmp(OFpLt, a, k(9223372036854775808.0)), FpCmp(OFpLe, k(-9223372036854775808.0), a))
 	}
-	t := newTerm(op, BV(w), a)
-	t.A = w
-	return t
+	conv := newTerm(OFpToS, BV(via), a)
+	conv.A = via
+	var indefinite *Term
+	if via == 32 {
+		indefinite = BVC(32, 0x80000000)
+	} else {
+		indefinite = BVC(64, 1<<63)
+	}
+	res := Ite(inRange, conv, indefinite)
+	if !signed && w == 64 {
+		big := FpCmp(OFpLe, k(9223372036854775808.0), a)
+		shifted := newTerm(OFpToS, BV(64), FpBin(OFpSub, a, k(9223372036854775808.0)))
+		shifted.A = 64
+		res = Ite(big, BvBin(OBvXor, shifted, BVC(64, 1<<63)), res)
+	}
+	if w < via {
+		return Extract(res, w-1, 0)
+	}
+	return res
 }
 
 func FpToFp(a *Term, fw int) *Term {
